@@ -13,7 +13,9 @@ search     : direct oracles on whole renders of corpus modules and of synthetic 
              groups; separation 0 => L == R and m vs -m => L/R exchanged (exact +-100 included).
 regression : it_note_delay_nna.it with master volume 0 (F6, fixed 24b5355, signature silence:master_vol:nna);
              NP2.Multica at 4000 Hz with XMP_FLAGS_A500 (Paula kernel read past the sample end, fixed
-             15834b2, signature harness-abort:heap-buffer-overflow@libxmp_mix_stereoout_mono_a500).
+             15834b2, signature harness-abort:heap-buffer-overflow@libxmp_mix_stereoout_mono_a500);
+             Mexx-BitBlaster-1.TrackerPacker2 from order 7 in A500 mode (Paula state surviving voice-slot reuse
+             breaks superposition, signature superposition:solo_sum:a500).
 """
 import os
 import re
@@ -39,7 +41,8 @@ MANIFEST = dict(
     note="Finding F6 (background/NNA voices scaled by smix_vol instead of master_vol) was repaired in /repo (24b5355); the model follows "
          "whichever rule the working tree has (generated flag nnaRootRule) and the oracle keeps it_note_delay_nna.it with master volume 0 as "
          "a regression case (signature silence:master_vol:nna). This check also found the Paula-kernel read past the sample end (fixed "
-         "15834b2); NP2.Multica at 4000 Hz in A500 mode stays in every run. "
+         "15834b2) and that the Paula state of a voice slot survived its reuse by another channel, which made one channel's audio depend on "
+         "another channel being muted in A500 mode (signature superposition:solo_sum:a500); both witnesses stay in every run. "
          "Modelled-not-verified: that each kernel's sample sequence (interpolation, filter, Paula BLEP) is a function of the voice alone is "
          "established by the exact per-tick solo decomposition on the cases run, not by a theorem about mix_all.c; voice allocation / "
          "eviction (virtual.c alloc_voice/free_voice), effect processing and envelopes before the volume tail, the sample position "
@@ -274,6 +277,14 @@ def run(ck):
     oracle("silence", 120 if quick else 600, synth + omods, "silencestat", silence_stat)
     oracle("solosum", 90 if quick else 400, synth + (omods[:70] if quick else omods), "solosumstat", solosum_stat)
     oracle("sep", 100 if quick else 500, synth + (omods[:90] if quick else omods), "sepstat", sep_stat)
+    # A500 mode (Paula kernels, per-voice BLEP state) on Amiga modules: regression for the Paula state that
+    # survived voice-slot reuse (signature superposition:solo_sum:a500)
+    amods = [f for f in allfiles if os.path.basename(f) in A500_SOLOSUM_WITNESSES] + [f for f in synth if f.endswith(".mod")]
+    amods += amiga[:6 if quick else 120]
+    oracle("solosum", 200 if quick else 400, amods, "solosumstat", solosum_stat, {"C14_A500": "1"})
+    # the exact configuration in which the finding was first seen (order 7 onwards, 400 frames)
+    oracle("solosum", 400, amods[:1], "solosumstat", solosum_stat, {"C14_A500": "1", "C14_POS": "7", "C14_RATE": "8000"})
+    oracle("sep", 120 if quick else 400, amods, "sepstat", sep_stat, {"C14_A500": "1"})
     # the same synthetic modules under each interpolator at a low and a high rate
     for interp, rate in ((1, 8000), (2, 44100), (0, 4000)):
         env = {"C14_INTERP": str(interp), "C14_RATE": str(rate)}
